@@ -10,6 +10,17 @@ COMMON_NOTE = ("Trusted base: TLC 1.8 evaluating the TLA+ specification in /veri
                "assumption of DESIGN 2.5 for the exhaustive part; simulated / random traces go beyond it.")
 
 CHECKS = {
+ "C04": dict(engine="ArrayHistory", design="3/C04",
+   text=("ArrayHistory.tla is a state machine over one abstract growable F-ordered array: region / subscript / linear "
+         "writes (with growth in size and order) and the corresponding reads.  TLC checks on it the frame property "
+         "(last write wins, every other position unchanged, growth pads with zeros, never shrinks) and the read laws, "
+         "and enumerates histories: depth 1 over the full key alphabet, depth 2-3(4) over a 13-write alphabet from 7 "
+         "start tensors, plus simulated walks.  Every history drives a dense and a sparse holder in lock step and is "
+         "followed by a read-back through 12 read forms; TLC validates the recorded traces against ArrayHistory_Trace "
+         "(after every write both holders must be well formed and denote the abstract array)."),
+   technique="TLA+ state machine ArrayHistory; TLC action-property checking + history generation; lock-step replay on dense and sparse holders; TLC trace validation",
+   note=("One open known finding: dense region keys combining an index list with another non-slice index follow numpy "
+         "pairing semantics.  Trusted base: TLC, holder construction and key translation in harness/c04.py.")),
  "C06": dict(engine="SparseOrder", design="3/C06",
    text=("SparseOrder.tla states well-formedness of sparse results (one value per subscript, subscripts in range and "
          "pairwise distinct, reported nnz = stored entries, no explicit zero after combining / filtering operations) "
